@@ -36,6 +36,10 @@ def run(ctx: Ctx, chk) -> None:
     from .c15 import inplace3
 
     chk.run_rule(inplace3, ctx)
+    # ... and a later load of the same Persistence object can still run its file operations
+    from .orderedio import executor_alive
+
+    chk.run_rule(executor_alive, ctx)
 
 
 def stored_attrs(ctx: Ctx, c: ClassInfo) -> dict[str, str]:
